@@ -630,6 +630,41 @@ func c18Spaces(c *fw.Ctx) {
 				}
 			}
 		})
+	c.Space("key-struct-reuse", "per algorithm: the fixed key A and the alternative key B of the same owner; one KEY struct, every sequence of 3 steps over {material A, material B} × {message signed with A, with B}; before each step the struct's PublicKey is assigned, then SIG.Verify is called: nil exactly when material and signature belong together, whatever the struct was used for before; non-trivial: all", true,
+		func(emit func(func(*fw.R))) {
+			for _, a := range c18Algs {
+				a := a
+				emit(func(r *fw.R) {
+					r.Nontrivial()
+					ks := [2]*c18Key{c18LoadKey(a.file), c18LoadKey(a.file + "-alt")}
+					var outs [2][]byte
+					var sigs [2]*dns.SIG
+					for i, k := range ks {
+						sigs[i] = c18NewSIG(a, k, ks[0].rr.Hdr.Name, c18FixedInception, c18FixedExpiration)
+						out, err := sigs[i].Sign(k.priv, c18Query())
+						if err != nil {
+							return // reported by space sign
+						}
+						outs[i] = out
+					}
+					for seq := 0; seq < 64; seq++ {
+						key := dns.Copy(ks[0].rr).(*dns.KEY)
+						var trace []string
+						for step := 0; step < 3; step++ {
+							mat, sg := (seq>>(2*step))&1, (seq>>(2*step+1))&1
+							key.PublicKey = ks[mat].rr.PublicKey
+							err, pan := c18Verify(sigs[sg], key, outs[sg])
+							trace = append(trace, fmt.Sprintf("material %d + message signed by key %d → %v", mat, sg, err))
+							if pan != nil || (err == nil) != (mat == sg) {
+								r.Fail("verify/key-struct-reuse", "alg=%s: one KEY struct, PublicKey assigned before each Verify: step %d gives the wrong verdict (panic %v): %v", a.name, step+1, pan, trace)
+								break
+							}
+						}
+					}
+					r.Count("sequences", 64)
+				})
+			}
+		})
 	c18ShortSpace(c)
 }
 
